@@ -6,7 +6,7 @@ import json, os, re
 V = os.path.dirname(os.path.dirname(os.path.abspath(__file__)))
 design = open(os.path.join(V, 'DESIGN.md')).read()
 rows = {}
-for m in re.finditer(r'^\| (C\d\d-[a-j]) \| (.*?) \| (.*?) \|$', design, re.M):
+for m in re.finditer(r'^\| (C\d\d-[a-l]) \| (.*?) \| (.*?) \|$', design, re.M):
     rows[m.group(1)] = (m.group(2), m.group(3))
 
 
